@@ -235,29 +235,57 @@ def r2(ctx):
             raise AnchorMissing("apdu.%s" % fname)
         arg = f.args.args[0].arg
         loops = [l for l in walk_shallow(f) if isinstance(l, ast.For)]
-        ok = len(loops) == 1
-        idxs = None
-        if ok:
-            try:
-                idxs = list(ev.value(loops[0].iter, {}))
-            except (NotConst, TypeError):
-                ok = False
         tab = tables[tname] or []
         valid = [i for i, v in enumerate(tab) if v is not None]
-        ctx.check("%s:scan-descending" % fname, ok and idxs == sorted(valid, reverse=True), where(m, f),
-                  "the scan must visit every defined code from the largest down (visits %r, defined %r)" % (idxs, valid))
+        ok = len(loops) == 1
+        elems = None
         if ok:
+            try:
+                elems = list(ev.value(loops[0].iter, {}))
+            except (NotConst, TypeError):
+                ok = False
+        ctx.check("%s:scan-evaluable" % fname, ok, where(m, f), "the table scan must be a single loop over a constant range of codes")
+        if ok:
+            # unroll the scan over its (constant) iterable for capabilities around every table value: the code returned is
+            # the largest one whose table value does not exceed the capability - never rounded up, no defined code skipped
             lp = loops[0]
-            i = norm(lp.target)
             rets = [r for r in ast.walk(lp) if isinstance(r, ast.Return)]
-            ok2 = len(rets) == 1 and norm(rets[0].value) == i
-            if ok2:
-                fa = facts_at(rets[0], stop=lp)
-                key = "%s[%s]" % (tname, i)
-                pts = [(a, b) for a in (1, 2, 3) for b in (1, 2, 3)]
-                reach = [(a, b) for a, b in pts if ev.may_hold(fa, {key: a, arg: b})]
-                ok2 = reach == [(a, b) for a, b in pts if a <= b]
-            ctx.check("%s:round-down" % fname, ok2, where(m, lp), "a code may be chosen only if its table value is <= the capability (never round up)")
+            tnames = [x.id for x in ast.walk(lp.target) if isinstance(x, ast.Name)]
+            bad = []
+            probes = sorted({v + d for v in tab if v is not None for d in (-1, 0, 1)} | {10 ** 6})
+            for a_ in probes:
+                want = max([i for i in valid if tab[i] <= a_], default=None)
+                got = "falls-through"
+                for el in elems:
+                    env = {arg: a_}
+                    if isinstance(lp.target, ast.Name):
+                        env[lp.target.id] = el
+                    elif isinstance(lp.target, ast.Tuple) and isinstance(el, (tuple, list)) and len(el) == len(lp.target.elts):
+                        for te, ev_ in zip(lp.target.elts, el):
+                            if isinstance(te, ast.Name):
+                                env[te.id] = ev_
+                    hit = None
+                    for r in rets:
+                        fa = facts_at(r, stop=lp)
+                        try:
+                            if ev.must_hold(fa, env):
+                                hit = ev.value(r.value, env)
+                                break
+                            if ev.may_hold(fa, env):
+                                hit = "?"
+                                break
+                        except TypeError:
+                            hit = "?"
+                            break
+                    if hit is not None:
+                        got = hit
+                        break
+                if (want is None and got != "falls-through") or (want is not None and got != want):
+                    bad.append((a_, got, want))
+            ctx.check("%s:scan-descending" % fname, not bad, where(m, lp),
+                      "capability -> code chosen by the scan (expected: the largest code whose table value is <= the capability): %s" % "; ".join("%s -> %s, expected %s" % b_ for b_ in bad[:5]))
+            ctx.check("%s:round-down" % fname, not [b_ for b_ in bad if b_[2] is not None and isinstance(b_[1], int) and b_[1] > b_[2]] and not [b_ for b_ in bad if b_[2] is None], where(m, lp),
+                      "a code may be chosen only if its table value is <= the capability (never round up)")
         # nothing fits -> raise
         last = f.body[-1]
         ctx.check("%s:no-fit-raises" % fname, isinstance(last, ast.Raise), where(m, f), "a capability below the smallest table value must be refused")
